@@ -1,6 +1,6 @@
 (* C01 — Log recovery restores the last committed storage content at every crash point.
-   Pinned statements only; proofs live in theories/FileWalProofs.v. *)
-From Agdb Require Import Bytes FileWal FileWalProofs.
+   Pinned statements only; proofs live in theories/FileWalProofs.v and theories/FileWalGuardProofs.v. *)
+From Agdb Require Import Bytes FileWal FileWalProofs FileWalGuardProofs.
 Open Scope nat_scope.
 
 (* For every committed file content d0 (empty log), every list of storage-data calls
@@ -44,6 +44,69 @@ Proof.
   intros rs p v m H1 H2 H3. apply records_encs; [exact H1|now apply prefix_incomplete].
 Qed.
 Print Assumptions C01_repair_torn_tail.
+
+(* ---- recovery with the position guard of apply_wal_record (fix: reject a log record positioned
+   beyond the end of the file; `recover_g`, None = FileStorage::new returns the error) ----
+
+   Under exactly the hypotheses of C01_recover_restores — every committed content, every well-positioned
+   operation list, every crash cut incl. torn calls on either file — the guard never fires: the guarded
+   recovery succeeds and returns what the unguarded one returns, i.e. the content at the last completed
+   flush with an empty log.  (The guard is evaluated per record at replay time against the data as
+   already modified by the newer records; the invariant Good' carries "each logged position is <= the
+   length of the data at the moment that record is undone".) *)
+Theorem C01_guarded_recovery_agrees :
+  forall (d0 : bytes) (ops : list op) (k j : nat),
+    wp d0 ops ->
+    let c := crash {| data := d0; wal := [] |} (trace walrev_fixed {| data := d0; wal := [] |} ops) k j in
+    recover_g walrev_fixed c = Some (recover walrev_fixed c) /\
+    recover_g walrev_fixed c = Some {| data := expect d0 {| data := d0; wal := [] |} ops k; wal := [] |}.
+Proof. exact recover_g_from_committed. Qed.
+Print Assumptions C01_guarded_recovery_agrees.
+
+(* the same from any state whose log is a valid undo log of its data with every position inside the
+   data it is applied to (Good'; it implies Good) *)
+Theorem C01_guarded_recovery_agrees_general :
+  forall ops st d0 k j, Good' d0 st -> wp (data st) ops ->
+  recover_g walrev_fixed (crash st (trace walrev_fixed st ops) k j)
+  = Some (recover walrev_fixed (crash st (trace walrev_fixed st ops) k j)).
+Proof. exact recover_g_restores. Qed.
+Print Assumptions C01_guarded_recovery_agrees_general.
+
+Theorem C01_guarded_invariant_implies_plain :
+  forall d0 st, Good' d0 st -> Good d0 st.
+Proof. exact good'_good. Qed.
+Print Assumptions C01_guarded_invariant_implies_plain.
+
+(* on ANY pair of files and any revision: when the guarded recovery succeeds it is the unguarded one *)
+Theorem C01_guarded_recovery_sound :
+  forall rv st st', recover_g rv st = Some st' -> st' = recover rv st.
+Proof. exact recover_g_some. Qed.
+Print Assumptions C01_guarded_recovery_sound.
+
+(* the guard does fire on a log the storage did not write: one record positioned beyond the end of the
+   file is an error (16 bytes of garbage: p = 2^40, v = [] is the witness of the C07 findings
+   alloc-FileStorage.read/FileStorageMemoryMapped.new and hang-Storage.read_records) *)
+Theorem C01_guard_fires :
+  forall (d : bytes) (p : nat) (v : bytes), ok_rec (p, v) -> length d < p ->
+  recover_g walrev_fixed {| data := d; wal := enc_rec p v |} = None.
+Proof. exact guard_fires. Qed.
+Print Assumptions C01_guard_fires.
+
+Example C01_guard_fires_garbage_log :
+  let d := [x01; x02; x03] in
+  recover_g walrev_fixed {| data := d; wal := le64 1000 ++ le64 0 |} = None.
+Proof. exact guard_fires_far. Qed.
+Print Assumptions C01_guard_fires_garbage_log.
+
+(* "the end" is the current end at replay time: the newer record (applied first) truncates to 2, the
+   older one then lies beyond the end; in the other order, and alone, both are accepted *)
+Example C01_guard_current_end :
+  let d := [x01; x02; x03] in
+  recover_g walrev_fixed {| data := d; wal := enc_rec 3 [x0a] ++ enc_rec 2 [] |} = None /\
+  recover_g walrev_fixed {| data := d; wal := enc_rec 3 [x0a] |} = Some {| data := [x01; x02; x03; x0a]; wal := [] |} /\
+  recover_g walrev_fixed {| data := d; wal := enc_rec 2 [] ++ enc_rec 3 [x0a] |} = Some {| data := [x01; x02]; wal := [] |}.
+Proof. exact guard_fires_current_end. Qed.
+Print Assumptions C01_guard_current_end.
 
 (* the three defects of the code before the fix: commit (each switched back on alone) *)
 Theorem C01_pinned_refuted_replay_order :
